@@ -163,4 +163,101 @@ def runSink (cap : Nat) : List Call → State → State × List (Except WErr Obs
     | (.ok (), s') => let r := runSink cap cs s'; (r.1, .ok s'.obs :: r.2)
     | (.error e, s') => let r := runSink cap cs s'; (r.1, .error e :: r.2)
 
+/-! ### `write_tape` over the failing sink (writer.rs:725-861, same index walk as `writeTape`) -/
+
+/-- writer.rs:793 -/
+def writeEscapedQuotesF (cap : Nat) (x : Bytes) : FM :=
+  .seq (writePreambleF cap) (.seq (putF cap ([34] ++ x ++ [34])) writeEpilogueF)
+
+def failF (e : WErr) : FM := fun s => (.error e, s)
+
+mutual
+/-- writer.rs:734 `write_object_core` -/
+def writeObjectCoreF (cap : Nat) (toks : List Tok) : Nat → Nat → Nat → FM
+  | 0, _, _ => failF .fuel
+  | fuel + 1, tokenInd, endInd =>
+    if tokenInd ≥ endInd then .ok else
+    match toks[tokenInd]? with
+    | none => failF .panic
+    | some key =>
+      match key with
+      | .mixedContainer => .ok
+      | .array .. | .object .. | .operator _ | .end _ | .header _ => failF .panic
+      | .quoted _ | .unquoted _ | .parameter _ | .undefinedParameter _ =>
+        match toks[tokenInd + 1]? with
+        | none => failF .panic
+        | some t1 =>
+          let opv : Option Op × Nat := match t1 with
+            | .operator x => (some x, tokenInd + 2)
+            | _ => (none, tokenInd + 1)
+          let op := opv.1
+          let valueInd := opv.2
+          match nextIdx toks (toks.length + 1) valueInd with
+          | .error e => failF e
+          | .ok next =>
+            let opF : FM := match op with | some o => writeOperatorF cap o | none => .ok
+            let afterField : FM :=
+              match key with
+              | .parameter x => writeParamF cap toks fuel [91, 91] x valueInd
+              | .undefinedParameter x => writeParamF cap toks fuel [91, 91, 33] x valueInd
+              | .quoted x => .seq (writeEscapedQuotesF cap x) (.seq opF (writeValueF cap toks fuel valueInd))
+              | .unquoted x => .seq (writeUnquotedF cap x) (.seq opF (writeValueF cap toks fuel valueInd))
+              | _ => failF .panic
+            .seq afterField (writeObjectCoreF cap toks fuel next endInd)
+
+/-- writer.rs:740-769 -/
+def writeParamF (cap : Nat) (toks : List Tok) : Nat → Bytes → Bytes → Nat → FM
+  | 0, _, _, _ => failF .fuel
+  | fuel + 1, opening, x, valueInd =>
+    .seq (writePreambleF cap) (.seq (putF cap (opening ++ x ++ [93, 10]))
+      (match toks[valueInd]? with
+       | none => failF .panic
+       | some (.object e _) =>
+         .seq (writeObjectCoreF cap toks fuel (valueInd + 1) e) (.seq (putF cap [10]) (.seq (writeIndentF cap) (putF cap [93])))
+       | some (.array e _) =>
+         .seq (writeObjectCoreF cap toks fuel e e) (.seq (putF cap [10]) (.seq (writeIndentF cap) (putF cap [93])))
+       | some _ => .seq (writeValueF cap toks fuel valueInd) (putF cap [93])))
+
+/-- writer.rs:802 `write_value` -/
+def writeValueF (cap : Nat) (toks : List Tok) : Nat → Nat → FM
+  | 0, _ => failF .fuel
+  | fuel + 1, valueInd =>
+    match toks[valueInd]? with
+    | none => failF .panic
+    | some tok =>
+      match tok with
+      | .array e _ => .seq (writeArrayStartF cap) (.seq (writeValuesF cap toks fuel (valueInd + 1) e) (writeEndF cap))
+      | .object e _ => .seq (writeObjectStartF cap) (.seq (writeObjectCoreF cap toks fuel (valueInd + 1) e) (writeEndF cap))
+      | .mixedContainer => .mod startMixedMode
+      | .unquoted x => writeUnquotedF cap x
+      | .quoted x => writeEscapedQuotesF cap x
+      | .parameter _ | .undefinedParameter _ | .end _ => failF .panic
+      | .operator op =>
+        .seq (.dep fun s => if s.mixedMode = .disabled then putF cap [32] else .mod fun s => { s with mixedMode := .keyed })
+          (putF cap op.symbol)
+      | .header x =>
+        match nextIdx toks (toks.length + 1) (valueInd + 1) with
+        | .error e => failF e
+        | .ok endInd =>
+          if ¬ (valueInd < endInd) then .seq (writeHeaderF cap x) (failF .panic) else
+          if ¬ (valueInd + 1 < endInd) then .seq (writeHeaderF cap x) (failF .panic) else
+          match nextIdxValues toks (valueInd + 1) with
+          | .error e => .seq (writeHeaderF cap x) (failF e)
+          | .ok _ => .seq (writeHeaderF cap x) (writeValueF cap toks fuel (valueInd + 1))
+
+/-- writer.rs:845 the `values()` loop -/
+def writeValuesF (cap : Nat) (toks : List Tok) : Nat → Nat → Nat → FM
+  | 0, _, _ => failF .fuel
+  | fuel + 1, tokenInd, endInd =>
+    if tokenInd < endInd then
+      match nextIdxValues toks tokenInd with
+      | .error e => failF e
+      | .ok next => .seq (writeValueF cap toks fuel tokenInd) (writeValuesF cap toks fuel next endInd)
+    else .ok
+end
+
+/-- `write_tape` into the failing sink: the result and what reached the sink -/
+def writeTapeF (cap : Nat) (toks : List Tok) : FM :=
+  writeObjectCoreF cap toks (4 * toks.length + 8) 0 toks.length
+
 end Jomini.Writer
